@@ -19,18 +19,37 @@ pub fn mk_list(elems: &[Unifiable], tail: Option<Unifiable>) -> Unifiable {
     l
 }
 
+/// atoms and names may contain the characters the case syntax uses as delimiters (join's punctuation atoms `,` `;`): percent-escaped
+pub fn esc(s: &str) -> String {
+    let mut o = String::new();
+    for ch in s.chars() { if ",[](){}:;|%=~".contains(ch) || (ch as u32) < 0x20 { o.push_str(&format!("%{:02X}", ch as u32)); } else { o.push(ch); } }
+    o
+}
+pub fn unesc(s: &str) -> String {
+    let cs: Vec<char> = s.chars().collect();
+    let mut o = String::new();
+    let mut i = 0;
+    while i < cs.len() {
+        if cs[i] == '%' && i + 2 < cs.len() {
+            let h: String = cs[i + 1..i + 3].iter().collect();
+            if let Ok(v) = u32::from_str_radix(&h, 16) { if let Some(c) = char::from_u32(v) { o.push(c); i += 3; continue; } }
+        }
+        o.push(cs[i]); i += 1;
+    }
+    o
+}
 pub fn ser(t: &Unifiable) -> String {
     match t {
         Nil => "N".into(),
         Anonymous => "_".into(),
-        Atom(s) => format!("A:{}", s),
+        Atom(s) => format!("A:{}", esc(s)),
         SInteger(i) => format!("I:{}", i),
         SFloat(f) => format!("F:{:?}", f),
-        LogicVar { id, name } => format!("V:{}:{}", id, name),
+        LogicVar { id, name } => format!("V:{}:{}", id, esc(name)),
         SComplex(ts) => format!("C[{}]", ts.iter().map(ser).collect::<Vec<_>>().join(",")),
         SLinkedList { term, next, count, tail_var } =>
             format!("K({},{},{},{})", ser(term), ser(next), count, if *tail_var { "t" } else { "f" }),
-        SFunction { name, terms } => format!("S:{}[{}]", name, terms.iter().map(ser).collect::<Vec<_>>().join(",")),
+        SFunction { name, terms } => format!("S:{}[{}]", esc(name), terms.iter().map(ser).collect::<Vec<_>>().join(",")),
     }
 }
 
@@ -58,12 +77,12 @@ impl<'a> P<'a> {
         match self.peek() {
             b'N' => { self.i += 1; Nil }
             b'_' => { self.i += 1; Anonymous }
-            b'A' => { self.i += 1; self.eat(b':'); Atom(self.word()) }
+            b'A' => { self.i += 1; self.eat(b':'); Atom(unesc(&self.word())) }
             b'I' => { self.i += 1; self.eat(b':'); SInteger(self.word().parse().unwrap()) }
             b'F' => { self.i += 1; self.eat(b':'); SFloat(self.word().parse().unwrap()) }
-            b'V' => { self.i += 1; self.eat(b':'); let id = self.word().parse().unwrap(); self.eat(b':'); LogicVar { id, name: self.word() } }
+            b'V' => { self.i += 1; self.eat(b':'); let id = self.word().parse().unwrap(); self.eat(b':'); LogicVar { id, name: unesc(&self.word()) } }
             b'C' => { self.i += 1; self.eat(b'['); SComplex(self.list(b']')) }
-            b'S' => { self.i += 1; self.eat(b':'); let name = self.word(); self.eat(b'['); SFunction { name, terms: self.list(b']') } }
+            b'S' => { self.i += 1; self.eat(b':'); let name = unesc(&self.word()); self.eat(b'['); SFunction { name, terms: self.list(b']') } }
             b'K' => {
                 self.i += 1; self.eat(b'(');
                 let t = self.term(); self.eat(b',');
